@@ -157,6 +157,10 @@ def check_tree(run, rng, tree, engine: str, case_id: Any) -> None:
         except Exception as exc:
             run.violation(f'serialise raised {exc!r}', case=case, engine=engine, key='serialise-raises')
             return
+        if not isinstance(text, str):
+            run.violation(f'serialise({opts}) produced {type(text).__name__} instead of the text', case=case, engine=engine,
+                          key='serialise-return')
+            return
         texts.append((f'serialise{opts}', text))
         run.count('serialise_calls')
     with warnings.catch_warnings():
